@@ -31,14 +31,16 @@ PID = "C11"
 LEVEL = "model_checking"
 CRATE = "harness-pub"
 
-# Quirks of the pinned code that the specification models through constants
-# (see the CONSTANTS of PubServer.tla / RepoFiles.tla).  Flip a value when
-# the corresponding repair lands in /repo; the static spec/*.cfg files carry
-# the same values.
+# Defects of the pinned tree that the specification can still model through
+# constants (see the CONSTANTS of PubServer.tla / RepoFiles.tla).  The values
+# describe the current /repo, in which they are repaired; the static
+# spec/*.cfg files carry the same values (spec/MC_RepoFiles_pinned.cfg the
+# old ones).
 CODE_VARIANT = {
-    "MaxNrEquality": "TRUE",        # rrdp.rs:440  keep == max_nr - 1
-    "TruncateOnCreate": "FALSE",    # file.rs:84-113 no O_TRUNC
-    "RemoveOldFirst": "FALSE",      # rsync.rs:118-131 stale old/ stays
+    "MaxNrEquality": "FALSE",     # 3d66903f rrdp.rs:440 keep + 1 >= max_nr
+    "TruncateOnCreate": "TRUE",   # 99a13ae1 file.rs create_file truncates
+    "RemoveTmpFirst": "TRUE",     # 6e18ad8e rsync.rs stale tmp-N removed
+    "RemoveOldFirst": "TRUE",     # 0b66fb18 rsync.rs stale old/ removed
 }
 
 MC_TEMPLATE = """CONSTANTS
@@ -55,6 +57,7 @@ MC_TEMPLATE = """CONSTANTS
   MaxSession = {max_session}
   DeltaChoices <- {deltas}
   TruncateOnCreate = {variant[TruncateOnCreate]}
+  RemoveTmpFirst = {variant[RemoveTmpFirst]}
   RemoveOldFirst = {variant[RemoveOldFirst]}
   MaxFaults = {max_faults}
   Depth = {depth}
@@ -65,15 +68,30 @@ CHECK_DEADLOCK FALSE
 """
 
 SOUND = """INVARIANT RTypeOK
+INVARIANT NotificationParsable
+INVARIANT InterruptedWriteNeverBlocks
 INVARIANT NotificationRefsExist
 INVARIANT SnapshotIsStateAtSerial
 INVARIANT ClientCatchesUp
 INVARIANT DeltasContiguousOnDisk
 INVARIANT DeltasContiguousToCurrent
+INVARIANT DeltasBoundedOnDisk
+INVARIANT DeltasBounded
 PROPERTY DiskFollowsLogical
 PROPERTY WriteOk
+PROPERTY RsyncEqualsSnapshotAfterWrite
 PROPERTY SerialPlusOne
 PROPERTY SessionOnlyOnReset"""
+
+# the literal reading of "never exceed the configured maximum number" holds
+# in the model iff the configuration lets max_nr win
+STRICT = """
+INVARIANT DeltasNeverExceedMaxNr
+INVARIANT DeltasNeverExceedMaxNrOnDisk"""
+
+
+def max_nr_wins(cfg):
+    return cfg["min_nr"] < cfg["max_nr"] and cfg["min_age"] == "zero"
 
 TRACE_TEMPLATE = """CONSTANTS
   Pubs <- PubsAllTrace
@@ -89,6 +107,7 @@ TRACE_TEMPLATE = """CONSTANTS
   MaxSession = 99
   DeltaChoices = {{}}
   TruncateOnCreate = {variant[TruncateOnCreate]}
+  RemoveTmpFirst = {variant[RemoveTmpFirst]}
   RemoveOldFirst = {variant[RemoveOldFirst]}
   MaxFaults = 9999
 SPECIFICATION TraceSpec
@@ -105,7 +124,7 @@ INVARIANTS = ["FilesAgree", "XmlHeadersAgree", "NotifAgree", "RealRefsExist",
               "ONotificationParsable", "ONotificationRefsExist",
               "OSnapshotIsStateAtSerial", "OClientCatchesUp",
               "ODeltasContiguousOnDisk", "ODeltasBoundedOnDisk",
-              "OInterruptedWriteNeverBlocks"]
+              "OInterruptedWriteNeverBlocks", "ODeltasNeverExceedMaxNr"]
 PROPERTIES = ["TraceDiskFollowsLogical", "TraceWriteOk",
               "TraceSerialPlusOne", "TraceSessionOnlyOnReset",
               "TraceRsyncEq"]
@@ -163,6 +182,8 @@ RETENTION_GRID = [
     (1, 2, "zero", "inf"), (1, 3, "zero", "inf"),
     (0, 2, "zero", "zero"), (0, 2, "inf", "inf"), (0, 2, "any", "any"),
     (1, 3, "any", "any"),
+    # the "always keep" rules beat max_nr (DeltasBounded still holds)
+    (1, 1, "zero", "inf"), (2, 2, "zero", "inf"), (2, 1, "zero", "inf"),
 ]
 
 
@@ -182,24 +203,22 @@ def model_runs(chk, tier):
     # every cut of every write, one fault (quick) / two faults (thorough)
     runs.append(("faults", mc_cfg(
         chk, "faults", base, max_faults=1 if quick else 2,
-        max_serial=4, max_session=2), 1500))
+        max_serial=4, max_session=2, checks=SOUND + STRICT), 1500))
     if not quick:
         runs.append(("faults2uris", mc_cfg(
             chk, "faults2uris", base, uris="UrisOne", max_faults=1,
-            max_serial=3, max_session=2), 2400))
+            max_serial=3, max_session=2, checks=SOUND + STRICT), 2400))
     # retention configurations, no faults: histories to serial 4 / 5
     grid = RETENTION_GRID if not quick else [
-        RETENTION_GRID[0], RETENTION_GRID[4], RETENTION_GRID[7]]
+        RETENTION_GRID[0], RETENTION_GRID[4], RETENTION_GRID[7],
+        RETENTION_GRID[9]]
     for g in grid:
         cfg = dict(min_nr=g[0], max_nr=g[1], min_age=g[2], max_age=g[3])
-        checks = SOUND + "\nINVARIANT DeltasBoundedOnDisk" \
-            + "\nINVARIANT DeltasBounded"
         runs.append((f"ret_{cfg_key(cfg)}", mc_cfg(
             chk, f"ret_{cfg_key(cfg)}", cfg,
             uris="UrisOneX" if quick else "UrisOne", max_faults=0,
-            max_serial=5, max_session=2), 1500))
-        write_cfg(runs[-1][1], open(runs[-1][1]).read().replace(
-            SOUND, checks))
+            max_serial=5, max_session=2,
+            checks=SOUND + (STRICT if max_nr_wins(cfg) else "")), 1500))
     taken = {}
     for name, cfg, timeout in runs:
         # per-action coverage slows TLC down a lot: first run only
@@ -223,13 +242,17 @@ def model_runs(chk, tier):
 
 # Properties the specification - which models what the code does - is
 # expected to violate; each counterexample is replayed on the real code.
+# (The four defects found this way in the pinned tree - torn notification,
+# stale old/, stale tmp-N, max_nr never applied - are repaired; their
+# counterexamples stay as REGRESSIONS below.)  What remains: the literal
+# reading of "never exceed the configured maximum number" cannot hold where
+# the "always keep" rules force more.
 EXPOSE = [
     # (exposing invariant, retention cfg, max_faults, max_serial)
-    ("XNotificationParsable", DEFAULT_CFG, 2, 3),
-    ("XInterruptedWriteNeverBlocks", DEFAULT_CFG, 1, 3),
-    ("XRsyncEq", DEFAULT_CFG, 2, 3),
-    ("XDeltasBoundedOnDisk",
-     {"min_nr": 1, "max_nr": 1, "min_age": "zero", "max_age": "inf"}, 0, 5),
+    ("XDeltasNeverExceedMaxNr",
+     {"min_nr": 1, "max_nr": 1, "min_age": "zero", "max_age": "inf"}, 0, 4),
+    ("XDeltasNeverExceedMaxNr",
+     {"min_nr": 0, "max_nr": 1, "min_age": "inf", "max_age": "inf"}, 0, 4),
 ]
 
 
@@ -238,23 +261,27 @@ def expose_runs(chk, tier):
     behaviours = []
     found = {}
     for inv, cfg, faults, max_serial in EXPOSE:
-        path = mc_cfg(chk, f"expose_{inv}", cfg, max_faults=faults,
+        inv_name = inv
+        inv = f"{inv_name}"
+        path = mc_cfg(chk, f"expose_{inv}_{cfg_key(cfg)}", cfg,
+                      max_faults=faults,
                       max_serial=max_serial, max_session=2,
                       uris="UrisOne" if "Deltas" in inv else "UrisOneX",
                       checks=f"INVARIANT {inv}")
         res = vlib.run_tlc("MC_RepoFiles", path, chk.out, workers=4,
                            timeout=1500)
-        chk.add_tlc(f"expose_{inv}", res)
+        chk.add_tlc(f"expose_{inv}_{cfg_key(cfg)}", res)
         reps = sorted(vlib.parse_replays(res.out),
                       key=lambda b: (len(b["actions"]), json.dumps(b)))
         if res.violated == inv and reps:
             beh = reps[0]
-            beh["id"] = f"model-{inv}"
+            beh["id"] = f"model-{inv}-{cfg_key(cfg)}"
             beh["cfg"] = cfg
             beh["case"] = ["canon"]
             behaviours.append(beh)
-            found[inv] = len(beh["actions"])
-            vlib.log(f"TLC expose_{inv}: model-level counterexample of "
+            found[f"{inv}:{cfg_key(cfg)}"] = len(beh["actions"])
+            vlib.log(f"TLC expose_{inv} {cfg_key(cfg)}: model-level "
+                     f"counterexample of "
                      f"{len(beh['actions'])} actions (replayed on the real "
                      f"code below)")
         elif res.violated or res.errors:
@@ -393,6 +420,58 @@ SCENARIOS["staged-merge"] = [
 ]
 
 
+def cw(a, cut, mode):
+    return {"a": a, "cut": cut, "mode": mode}
+
+
+# The histories on which the pinned tree violated C11 (found by TLC on the
+# model, confirmed on the real code, since repaired): executed in every run.
+REGRESSIONS = [
+    # D4: cut at the notification rename, then a shorter notification
+    ("torn-notification", DEFAULT_CFG, [
+        cw("Init", 1, "crash"), {"a": "Add", "p": ["a"]},
+        delta(["a"], P(AX, "c1")), cw("Update", 4, "crash"), wr("Reset"),
+        delta(["a"], W(AX, "c1")), wr("Update")]),
+    ("torn-notification-error", DEFAULT_CFG, [
+        wr("Init"), {"a": "Add", "p": ["a"]},
+        delta(["a"], P(AX, "c1")), cw("Update", 4, "error"), wr("Reset"),
+        delta(["a"], W(AX, "c1")), wr("Update")]),
+    # S3: cut in front of remove(old), then further writes
+    ("stale-old", DEFAULT_CFG, [
+        cw("Init", 1, "crash"), {"a": "Add", "p": ["a"]},
+        delta(["a"], P(AX, "c1")), wr("Update"), cw("Rewrite", 5, "crash"),
+        wr("Rewrite"), delta(["a"], U(AX, "c1", "c2")), wr("Update")]),
+    # D2: tmp-2 left behind, session reset, serial 2 again
+    ("stale-tmp", DEFAULT_CFG, [
+        wr("Init"), {"a": "Add", "p": ["a"]},
+        delta(["a"], P(AX, "c1")), cw("Update", 9, "crash"),
+        {"a": "Remove", "p": ["a"]}, cw("Reset", 1, "crash"), wr("Update"),
+        wr("Rewrite")]),
+    # ... and a cut at the removal of the stale tmp-2 itself
+    ("stale-tmp-cut", DEFAULT_CFG, [
+        wr("Init"), {"a": "Add", "p": ["a"]},
+        delta(["a"], P(AX, "c1")), cw("Update", 9, "crash"),
+        {"a": "Remove", "p": ["a"]}, cw("Reset", 1, "crash"),
+        cw("Update", 6, "crash"), wr("Rewrite"),
+        {"a": "Add", "p": ["a"]}, delta(["a"], P(AY, "c2")), wr("Update")]),
+    # D3: min_nr = max_nr = 1, five serials
+    ("max-nr", {"min_nr": 1, "max_nr": 1, "min_age": "zero",
+                "max_age": "inf"}, [
+        wr("Init"), {"a": "Add", "p": ["a"]},
+        delta(["a"], P(AX, "c2")), wr("Update"),
+        delta(["a"], W(AX, "c2")), wr("Update"),
+        delta(["a"], P(AX, "c2")), wr("Update"),
+        delta(["a"], P(AY, "c1")), wr("Update"),
+        delta(["a"], U(AY, "c1", "c2")), wr("Update")]),
+]
+
+
+def regressions():
+    return [{"id": f"regression-{name}", "actions": copy.deepcopy(acts),
+             "cfg": cfg, "case": ["canon"], "seed": 1}
+            for name, cfg, acts in REGRESSIONS]
+
+
 def is_write(a):
     return a["a"] in ("Init", "Update", "Reset", "Rewrite")
 
@@ -488,6 +567,14 @@ def culprit(rej):
     if cuts:
         parts.append("cuts=" + "+".join(cuts))
     cfg = seg[0].get("cfg", DEFAULT_CFG) if seg else DEFAULT_CFG
+    if rej["violated"] == "ODeltasNeverExceedMaxNr":
+        why = []
+        if cfg["min_nr"] >= cfg["max_nr"]:
+            why.append("min_nr>=max_nr")
+        if cfg["min_age"] != "zero":
+            why.append("min_seconds-keeps-young")
+        return "+".join(why) or (f"min_nr={cfg['min_nr']},"
+                                 f"max_nr={cfg['max_nr']}")
     if rej["violated"] and "DeltasBounded" in rej["violated"]:
         return ("min_nr>=max_nr" if cfg["min_nr"] >= cfg["max_nr"]
                 else f"min_nr={cfg['min_nr']},max_nr={cfg['max_nr']}")
@@ -544,18 +631,35 @@ def run_and_validate(chk, behaviours, tag, exclude=(), revalidate=True):
         cfg = seg[0].get("cfg", DEFAULT_CFG)
         groups.setdefault(cfg_key(cfg), (cfg, []))[1].append(seg)
     all_rej = []
+    cap = 12
     for key, (cfg, segs) in groups.items():
-        flat = [ev for s in segs for ev in s]
-        validated, rejections, states = vlib.validate_all(
-            "RepoFilesTrace", trace_cfg(chk, cfg, exclude), flat,
-            f"{chk.out}/{tag}", max_rejections=30)
-        chk.cov["traces_validated_against_impl"] += validated
-        chk.cov["trace_states"] = chk.cov.get("trace_states", 0) + states
-        for rej in rejections:
-            first = report(chk, rej, tag, exclude)
-            if revalidate and rej["violated"] and first:
-                again(chk, rej, cfg, tag, set(exclude) | {rej["violated"]}, 1)
-        all_rej.extend(rejections)
+        pending = segs
+        excl = set(exclude)
+        while pending:
+            flat = [ev for s in pending for ev in s]
+            validated, rejections, states = vlib.validate_all(
+                "RepoFilesTrace", trace_cfg(chk, cfg, excl), flat,
+                f"{chk.out}/{tag}", max_rejections=cap)
+            chk.cov["traces_validated_against_impl"] += validated
+            chk.cov["trace_states"] = chk.cov.get("trace_states", 0) + states
+            for rej in rejections:
+                first = report(chk, rej, tag, excl)
+                if revalidate and rej["violated"] and first:
+                    again(chk, rej, cfg, tag, set(excl) | {rej["violated"]},
+                          1)
+            all_rej.extend(rejections)
+            if len(rejections) < cap:
+                break
+            # Many behaviours run into the same (reported) properties: go
+            # on behind the last rejected behaviour without them, so that
+            # the remaining behaviours are still validated against all the
+            # other properties.
+            last = rejections[-1]["segment"]
+            idx = next(i for i, s in enumerate(pending) if s is last
+                       or s[0].get("behaviour") == last[0].get("behaviour"))
+            pending = pending[idx + 1:]
+            excl |= {r["violated"] for r in rejections
+                     if r["violated"] and r["violated"] not in AGREE}
     for seg in vlib.split_behaviours(trace):
         beh = behaviour_of(seg)
         wres = [e.get("wres") for e in seg if e.get("ev") == "wend"]
@@ -679,8 +783,9 @@ def run(tier, seed):
     exposed = expose_runs(chk, tier)
     vlib.log(f"expose runs done at {time.time() - chk.t0:.0f}s")
 
-    # 1. model-level counterexamples on the real code
-    run_and_validate(chk, exposed, "exposed")
+    # 1. model-level counterexamples and the regression histories on the
+    #    real code
+    run_and_validate(chk, exposed + regressions(), "exposed")
 
     # 2. every cut of every write of the base scenarios
     cut_behs = []
@@ -740,7 +845,8 @@ def run(tier, seed):
     # been exercised on the real code
     ops = chk.cov.get("real_fs_ops", {})
     need = ["delta", "snap", "newnotif", "rename", "rmsession", "rmserial",
-            "rmsnap", "tmp", "tmpfile", "cur2old", "new2cur", "rmold"]
+            "rmsnap", "rmtmp", "tmp", "tmpfile", "cur2old", "new2cur",
+            "rmold"]
     missing = [o for o in need if ops.get(o, 0) == 0]
     if missing:
         raise vlib.ToolError(f"file system mutations never seen: {missing}")
@@ -785,4 +891,7 @@ def replay(path, seed):
     extra_findings(chk)
     run_and_validate(chk, [rp["behaviour"]], "replay",
                      exclude=tuple(rp.get("exclude", [])), revalidate=False)
-    return chk.finish()
+    # no evidence file for a replay (the evidence of the last full run stays)
+    vlib.log(f"{PID} replay: violations={len(chk.violations)} "
+             f"known={len(chk.known)}")
+    return 1 if chk.violations else 0
